@@ -25,6 +25,8 @@ CHECKS = {
          "Per history the crash points of every maintenance op are enumerated exhaustively (each key write atomic); histories themselves are sampled.", "3/C12"),
  "C17": ("exploration", "runtime monitoring: reference model with invalid marks vs repository after every mark/unmark/submit/Save/Load",
          "Marks on best chain at several depths, side branches, unseen and unknown hashes, repeated marks, unmark+resubmit, reload.", "3/C17"),
+ "C18": ("fault_enumeration", "fault injection: every single-element corruption of each valid merkle proof (built by a reference implementation) must be rejected; valid proofs must report the model's height and best-chain flag",
+         "For each sampled block of each generated history (best chain, side branch, pruned history; 1-70 txids) valid proofs in 4 encodings are verified and then every single-element corruption is enumerated.", "3/C18"),
  "C19": ("exploration", "runtime monitoring: locator well-formedness oracle after every operation + simulated conformant peer replies submitted back",
          "Locators for max in {1,2,3,10,50} after every op; real-chain fixture sweep around the split heights; peer replies must connect.", "3/C19"),
 }
